@@ -2,7 +2,8 @@
 SPECIFICATION Spec
 CONSTANTS
   T = 2
-  DbIds = {"x.com", "w.y.com", "a.x.com", "io"}
+  DbIds = {"com", "x.com", "a.x.com", "io"}
   EmitOn = TRUE
+  ImplOnly = TRUE
 VIEW GraphView
-INVARIANTS TypeOK CacheTransparent
+INVARIANTS TypeOK CacheTransparent ImplAdmissible
